@@ -147,6 +147,7 @@ Proof.
     rewrite Forall_forall in F. apply F; exact Hl.
   - destruct (filter (fun la => f_aniso (snd la)) (combine labs (f_atoms St))) as [| la0 anis] eqn:Ef; [inversion Ha9; subst; contradiction |].
     destruct (map_opt (fun la => aniso_row (fst la) (snd la)) (la0 :: anis)) as [rows |] eqn:Er; [| discriminate]. cbn [option_map] in Ha9. injection Ha9 as <-.
+    change (In l (cif_w_aniso_header ++ rows)) in Hl.
     apply in_app_or in Hl. destruct Hl as [Hl | Hl]; [apply negb_true_iff; apply Hhdr2; exact Hl |].
     assert (F : Forall (fun x => first_word_is "cell" x = false) rows).
     { eapply map_opt_all_in; [| exact Er]. intros la x Hin Hx. unfold aniso_row, cif_w_aniso in Hx. eapply Hrow; [| exact Hx].
